@@ -98,15 +98,19 @@ func SupportsCertificate(acceptableCAs [][]byte, c *tls.Certificate) error {
 }
 
 type HandshakeConfig struct {
-	LocalPSKCallback              func([]byte) ([]byte, error)
-	LocalPSKIdentityHint          []byte
-	LocalCipherSuites             []CipherSuite
-	LocalSignatureSchemes         []signaturehash.Algorithm
-	LocalCertSignatureSchemes     []signaturehash.Algorithm
-	ExtendedMasterSecret          ExtendedMasterSecretType
-	LocalSRTPProtectionProfiles   []SRTPProtectionProfile
-	LocalSRTPMasterKeyIdentifier  []byte
-	ServerName                    string
+	LocalPSKCallback             func([]byte) ([]byte, error)
+	LocalPSKIdentityHint         []byte
+	LocalCipherSuites            []CipherSuite
+	LocalSignatureSchemes        []signaturehash.Algorithm
+	LocalCertSignatureSchemes    []signaturehash.Algorithm
+	ExtendedMasterSecret         ExtendedMasterSecretType
+	LocalSRTPProtectionProfiles  []SRTPProtectionProfile
+	LocalSRTPMasterKeyIdentifier []byte
+	ServerName                   string
+	// VerifyServerName is the name the server's certificate must be valid for.
+	// It is the configured server name as given, whereas ServerName, which is
+	// sent as SNI, is empty for an IP address literal.
+	VerifyServerName              string
 	SupportedProtocols            []string
 	ClientAuth                    ClientAuthType
 	LocalCertificates             []tls.Certificate
@@ -140,6 +144,16 @@ type HandshakeConfig struct {
 
 	nameToCertificate map[string]*tls.Certificate
 	mu                sync.Mutex
+}
+
+// ServerNameToVerify returns the name to check the server's certificate
+// against.
+func (c *HandshakeConfig) ServerNameToVerify() string {
+	if c.VerifyServerName != "" {
+		return c.VerifyServerName
+	}
+
+	return c.ServerName
 }
 
 func (c *HandshakeConfig) WriteKeyLog(label string, clientRandom, secret []byte) {
